@@ -36,6 +36,7 @@ func stateJobs(quick bool) []gossipJob {
 			{P: P("S5", 130, 2, 3, 0, 1, false), Need: []string{"TruncatedDigests"}},
 			{P: P("S8", 1400, 3, 3, 0, 1, false), Need: []string{"LeavesSeen", "StaleDiscarded"}},
 			{P: P("S9", 170, 3, 3, 0, 1, false), Need: []string{"TruncatedDeltas"}},
+			{P: P("S10", 1400, 2, 2, 0, 0, false)},
 		}
 	}
 	d := sec(600)
@@ -54,6 +55,7 @@ func stateJobs(quick bool) []gossipJob {
 		{P: P("S8", 1400, 5, 4, 1, 2, false), Deadline: d, Need: []string{"LeavesSeen", "StaleDiscarded"}},
 		{P: P("S8", 145, 4, 4, 1, 2, false), Deadline: d, Need: []string{"LeavesSeen", "TruncatedDeltas"}},
 		{P: P("S9", 170, 4, 4, 1, 2, false), Deadline: d, Need: []string{"TruncatedDeltas"}},
+		{P: P("S10", 1400, 3, 3, 1, 1, false), Deadline: d},
 	}
 }
 
